@@ -81,7 +81,7 @@ PATTERNS = {
     'rename': re.compile(r'^rename\(' + _STR + r', ' + _STR + r'\)' + _RET),
     'renameat': re.compile(r'^renameat\(' + _FD + r', ' + _STR + r', ' + _FD + r', ' + _STR + r'\)' + _RET),
     'renameat2': re.compile(r'^renameat2\(' + _FD + r', ' + _STR + r', ' + _FD + r', ' + _STR + r', [A-Z_|0-9a-fx]+\)' + _RET),
-    'getdents64': re.compile(r'^getdents64\(' + r'-?\d+(?:<((?:[^>\\]|\\.)*)>)?' + r', .*\)' + _RET),
+    'getdents64': re.compile(r'^getdents64\(' + r'-?\d+(?:<((?:[^>\\]|\\.)*)>)?' + r',\s*.*\)' + _RET),
 }
 
 
@@ -117,13 +117,14 @@ def parse_log(path, cwd):
             if rest.startswith('+++') or rest.startswith('---'):
                 continue
             if rest.endswith('<unfinished ...>'):
-                pending[pid] = rest[:-len('<unfinished ...>')].rstrip()
+                pending[pid] = rest[:-len('<unfinished ...>')]
                 continue
             mr = re.match(r'^<\.\.\. (\w+) resumed>\s*(.*)$', rest)
             if mr:
                 if pid not in pending:
                     continue
-                rest = pending.pop(pid) + mr.group(2)
+                head = pending.pop(pid).rstrip()
+                rest = head + (' ' if head.endswith(',') else '') + mr.group(2)
             name = rest.split('(', 1)[0]
             if name not in PATTERNS:
                 continue
@@ -186,6 +187,10 @@ def split_runs(events):
                 cur, phase = None, None
             continue
         if cur is not None:
+            # after `end` the child itself only takes snapshots; what counts as late is what
+            # descendants of the run still do
+            if phase == 'late' and ev['pid'] == runs[cur]['pid']:
+                continue
             runs[cur][phase].append(ev)
     return runs
 
@@ -316,6 +321,111 @@ def run_children(batches, workdir, timeout=900):
     return out
 
 
+# ------------------------------------------------------------------ what a run produced (child side)
+def h5_content(path, skip=('metadata', 'log', 'config')):
+    out = {}
+    if not os.path.exists(path):
+        return None
+    import h5py
+    import numpy as np
+    with h5py.File(path, 'r') as f:
+        def visit(name, obj):
+            if isinstance(obj, h5py.Dataset) and name.split('/')[-1] not in skip and name not in skip:
+                v = obj[()]
+                if isinstance(v, bytes):
+                    sv = v.decode('utf-8', 'replace')
+                    try:
+                        # serialized taxonomy trees carry {'metadata': {timestamp, host path of the input}}
+                        js = json.loads(sv)
+                        if isinstance(js, dict) and 'metadata' in js:
+                            js.pop('metadata')
+                            sv = json.dumps(js, sort_keys=True)
+                    except ValueError:
+                        pass
+                    out[name] = sv
+                else:
+                    a = np.asarray(v)
+                    out[name] = [str(a.dtype), list(a.shape), gen_hash(a)]
+        f.visititems(visit)
+    return out
+
+
+def gen_hash(a):
+    import numpy as np
+    if a.dtype.kind in 'OSU':
+        return hashlib.sha256(repr(a.tolist()).encode()).hexdigest()[:16]
+    return hashlib.sha256(np.ascontiguousarray(a).tobytes()).hexdigest()[:16]
+
+
+def result_of(job, rec):
+    """What the run produced, without time stamps / host paths / temporary names."""
+    a = job['args']
+    st = job['stage']
+    if st == 'mapping':
+        cfg = a['config']
+        out = {}
+        p = cfg['extended_result_path']
+        if os.path.exists(p):
+            blob = json.load(open(p))
+            out['json_results'] = blob.get('results')
+            out['json_keys'] = sorted(k for k in blob if k not in ('gene_identifier_mapping',))
+            out['marker_genes'] = blob.get('marker_genes')
+            out['taxonomy_tree'] = blob.get('taxonomy_tree')
+        if cfg.get('csv_result_path') and os.path.exists(cfg['csv_result_path']):
+            out['csv'] = [l for l in open(cfg['csv_result_path']).read().splitlines() if not l.startswith('#')]
+        if cfg.get('hdf5_result_path'):
+            out['h5'] = h5_content(cfg['hdf5_result_path'])
+        if cfg.get('obsm_key') and rec['ok']:
+            import h5py
+            with h5py.File(cfg['query_path'], 'r') as f:
+                out['obsm_present'] = cfg['obsm_key'] in f['obsm']
+        return out
+    if st in ('stats', 'refmarkers'):
+        return {'h5': h5_content(a['out'])}
+    if st == 'qmarkers':
+        return {'lookup': rec['returned']}
+    raise ValueError(st)
+
+
+# ------------------------------------------------------------------ stale files (child side, between runs)
+# every name pattern the stages use for temporary files (grep mkdtemp/mkstemp/prefix= in /repo/src)
+STALE_DIRS = ['cell_type_mapper_20200101000000_stale', 'result_buffer_stale', 'results_buffer_stale',
+              'file_tracker_stale', 'anndata_iterator_stale', 'precomputation_data_buffer_stale',
+              'find_markers_stale', 'transposition_stale', 'tmpstale000', 'markers_from_p_values_stale',
+              'round_x_to_integers_staging_stale']
+STALE_FILES = ['0_4_assignment.json', '0_1_assignment.json', '0_3_assignment.json', 'columns_0_10_stale.h5',
+               'precomputation_buffer_stale.h5', 'query_marker_stale.h5', 'unthinned_stale.h5', 'transposed_stale.h5',
+               'transpose_0_10_stale.h5', 'query_stale.h5ad', 'stats_stale.h5', 'query.h5ad_as_csr_stale.h5ad',
+               'reference_markers_stale.h5', 'data_as_int_stale.h5', 'p_values_stale.h5', 'ref.h5ad_stale']
+STALE_TEXT = json.dumps([{'cell_id': 'stale_cell', 'stale': True}])
+
+
+def plant_stale(dirs, seed):
+    """Files and directories under every temporary-name pattern, in each given directory (also
+    inside the stale directories: e.g. a results_buffer with assignment files of another run)."""
+    import random
+    rng = random.Random(seed)
+    for d in dirs:
+        d = pathlib.Path(d)
+        for nm in STALE_DIRS:
+            (d / nm).mkdir(exist_ok=True)
+            for fn in rng.sample(STALE_FILES, 4):
+                (d / nm / fn).write_text(STALE_TEXT)
+        (d / 'result_buffer_stale' / 'results_buffer_inner').mkdir(exist_ok=True)
+        (d / 'result_buffer_stale' / 'results_buffer_inner' / '0_4_assignment.json').write_text(STALE_TEXT)
+        for fn in STALE_FILES:
+            if not (d / fn).exists():
+                (d / fn).write_text(STALE_TEXT)
+
+
+def _pre(job):
+    pre = job.get('pre') or {}
+    if pre.get('plant'):
+        plant_stale(pre['plant']['dirs'], pre['plant']['seed'])
+    for p, text in (pre.get('write') or {}).items():
+        pathlib.Path(p).write_text(text)
+
+
 # ------------------------------------------------------------------ child side
 def _mark(what, label):
     try:
@@ -399,17 +509,18 @@ def child_main(jobfile):
     import cell_type_mapper.diff_exp.markers  # noqa: F401
     import cell_type_mapper.type_assignment.marker_cache_v2  # noqa: F401
     for job in spec['jobs']:
-        if job.get('wait_for'):
-            # concurrent histories: start together with the partner child
-            pathlib.Path(job['wait_for']['mine']).write_text('ready')
-            t0 = time.time()
-            while not os.path.exists(job['wait_for']['other']) and time.time() - t0 < 120:
-                time.sleep(0.005)
+        _pre(job)
         rec = {'label': job['label'], 'ok': True, 'error': None}
         rec['before'] = snapshot(job['roots'])
         undo = _install_fault(job['fault']) if job.get('fault') else None
         buf = io.StringIO()
         ret = None
+        if job.get('wait_for'):
+            # concurrent histories: start together with the partner child
+            pathlib.Path(job['wait_for']['mine']).write_text('ready')
+            t0 = time.time()
+            while not os.path.exists(job['wait_for']['other']) and time.time() - t0 < 120:
+                time.sleep(0.002)
         _mark('begin', job['label'])
         try:
             with contextlib.redirect_stdout(buf), contextlib.redirect_stderr(buf):
@@ -431,6 +542,10 @@ def child_main(jobfile):
             undo()
         rec['after'] = snapshot(job['roots'])
         rec['returned'] = ret
+        try:
+            rec['collected'] = result_of(job, rec)
+        except Exception as e:     # noqa
+            rec['collected'] = {'collect_error': f'{type(e).__name__}: {e}'}
         rec['stdout_tail'] = buf.getvalue()[-1500:]
         results.append(rec)
     pathlib.Path(spec['results']).write_text(json.dumps(results))
